@@ -14,6 +14,8 @@ package midicat
 //@ modifies rd.spos, rd.sfault
 //@ ensures [P:C19] result1 == nil ==> (rd.spos == old(rd.spos) + 1 && result0 == rd.sdata[old(rd.spos)])
 //@ ensures [P:C19] result1 != nil ==> rd.spos == old(rd.spos)
+//@ ensures [H] result1 != nil && rd.sfault == nil ==> (result1 == io.EOF && rd.spos == rd.sn)
+//@ ensures [H] rd.sfault == nil ==> old(rd.sfault) == nil
 //@ ensures [H] old(rd.spos) <= rd.spos && rd.spos <= rd.sn
 
 // decimal / hexadecimal field conversion (fmt.Sscanf): assumed, not proved
@@ -33,6 +35,9 @@ package midicat
 //@ ensures [P:C19] err == nil ==> (rd.spos > old(rd.spos) && rd.sdata[rd.spos - 1] == 0x0A && forall i int :: old(rd.spos) <= i && i < rd.spos - 1 ==> rd.sdata[i] != 0x0A)
 //@ ensures [P:C19] err == nil ==> forall s int :: (old(rd.spos) <= s && s < rd.spos - 1 && rd.sdata[s] == 0x20 && (forall i int :: (old(rd.spos) <= i && i < rd.spos - 1 && i != s) ==> rd.sdata[i] != 0x20)) ==> (len(out) == rd.spos - 2 - s && forall k int :: 0 <= k && k < len(out) ==> out[k] == rd.sdata[s + 1 + k])
 //@ ensures [P:C19] err == nil && (forall i int :: old(rd.spos) <= i && i < rd.spos - 1 ==> rd.sdata[i] != 0x20) ==> len(out) == 0
+// a line is only given up for one of two reasons: the source ended or failed, or the time-stamp field (the bytes
+// up to the separator just read) could not be converted
+//@ ensures [P:C19] err != nil && rd.sfault == nil ==> (rd.spos == rd.sn || (rd.spos > old(rd.spos) && rd.sdata[rd.spos - 1] == 0x20))
 //@ ensures [H] old(rd.spos) <= rd.spos && rd.spos <= rd.sn
 //@ loop 0 invariant old(rd.spos) <= rd.spos && rd.spos <= rd.sn && err == nil
 //@ loop 0 invariant forall i int :: old(rd.spos) <= i && i < rd.spos ==> rd.sdata[i] != 0x0A
